@@ -474,7 +474,22 @@ func (r *Runner) Step(op Op) *Violation {
 			return nil
 		}
 		if len(created) > 1 {
-			return &Violation{"C15", fmt.Sprintf("one write created %d files: %s", len(created), names(created))}
+			// a call that itself took longer than MaxDuration may open a file and find it too old a moment later
+			// (the test process was descheduled between the two): then one write legitimately leaves two files
+			slow := c.MaxDurMs > 0 && ta.Sub(tb) > time.Duration(c.MaxDurMs)*time.Millisecond
+			if !(slow && len(created) == 2) {
+				return &Violation{"C15", fmt.Sprintf("one write created %d files: %s", len(created), names(created))}
+			}
+			r.Sum.UncertainTime++
+			r.since, r.openLo, r.openHi, r.extRen = len(op.Data), tb, ta, false
+			r.setActive(created)
+			if c.TSOnly {
+				if x := r.find(c.FileName); x != nil {
+					r.active = x
+				}
+			}
+			r.isOpen, r.unsure = true, false
+			return nil
 		}
 		// ---- rotation trigger rule
 		if wasOpen && !wasUnsure {
